@@ -121,6 +121,8 @@ class Compiler:
     ):
         self.arch: ArchEnum = arch
         self.code_format = code_format
+        # Sub-routines belong to this instance (they are compiled with its code format).
+        self.sub_routines = dict()
 
         self.set_lark_parser()
         self.set_extension()
